@@ -79,3 +79,21 @@ Definition check_export_sem_fixed (text : string) (tab : list (qexpr * (float * 
                   | Ok s => phase_close (0x1.12e0be826d695p-30 * fmax 1 (vmaxabs v))%float (vec s) w | _ => false end
   | None => false
   end.
+
+(* C13: the objects of the soundness theorem on the real text: the body statements parsed from the exported text must be
+   exactly body_stmts 0 of the Gallina lowering of the circuit. bits: 1 every gate lowers; 2 the text parses; 4 bodies equal *)
+From QI Require Import Model.QasmLower.
+Definition qstmt_eqb (a b : qstmt) : bool :=
+  match a, b with
+  | SGate n1 nm1 ps1 os1, SGate n2 nm2 ps2 os2 => (n1 =? n2) && String.eqb nm1 nm2 && all2 qexpr_eqb ps1 ps2 && all2 N.eqb os1 os2
+  | SMeasure r1 b1 k1 q1, SMeasure r2 b2 k2 q2 => (r1 =? r2) && (b1 =? b2) && String.eqb k1 k2 && (q1 =? q2)
+  | _, _ => false
+  end.
+Definition is_body (s : qstmt) : bool := match s with SGate _ _ _ _ | SMeasure _ _ _ _ => true | _ => false end.
+Definition check_lowering (text : string) (xs : list (xgate (T:=float))) : N :=
+  match lower_all xs, p_program (lex text) with
+  | Some is, Some stmts => 1 + 2 + 4 * b2n (all2 qstmt_eqb (filter is_body stmts) (body_stmts 0 is))
+  | Some _, None => 1
+  | None, Some _ => 2
+  | None, None => 0
+  end.
